@@ -126,6 +126,30 @@ func (o *obsv) wealth() *big.Int {
 	return t
 }
 
+type monSnap struct {
+	ledger  map[string]*big.Int
+	acctSet map[string]int
+	lastOp  map[string]string
+	quirk   map[string]bool
+}
+
+func (m *monitor) takeSnap() {
+	sn := &monSnap{ledger: map[string]*big.Int{}, acctSet: map[string]int{}, lastOp: map[string]string{}, quirk: map[string]bool{}}
+	for k, v := range m.ledger {
+		sn.ledger[k] = new(big.Int).Set(v)
+	}
+	for k, v := range m.acctSet {
+		sn.acctSet[k] = v
+	}
+	for k, v := range m.lastOp {
+		sn.lastOp[k] = v
+	}
+	for k, v := range m.quirk {
+		sn.quirk[k] = v
+	}
+	m.snap = sn
+}
+
 type retainedRec struct {
 	live *types.Miner
 	copy rec
@@ -149,6 +173,9 @@ type monitor struct {
 	acctSet  map[string]int      // hex id -> block in which its account was last set (apply/chacc accepted)
 	touched  map[string]bool     // ids whose record was created / deleted / re-accounted / re-staked by an accepted op of the CURRENT block
 	accepted map[string]bool     // ids with an accepted application in this episode
+	snap     *monSnap            // ledger-side bookkeeping as of the last block end (restored by `rewind`)
+	pkStale  map[string]bool     // ids whose cached key was written by a block that was then discarded
+	blockReg map[string]bool     // ids with an accepted application in the current block
 	quirk    map[string]bool     // ids sitting aborted exactly on the minimum since an accepted add-stake put them there
 	lastOp   map[string]string   // last accepted op kind per id
 	pkShadow map[string][]byte   // public key of the last accepted application per id (independent of the code's answers)
@@ -303,6 +330,9 @@ func (m *monitor) run(line string) string {
 		m.accepted = map[string]bool{}
 		m.lastOp = map[string]string{}
 		m.quirk = map[string]bool{}
+		m.pkStale = map[string]bool{}
+		m.blockReg = map[string]bool{}
+		m.takeSnap()
 		m.retained = nil
 		m.blockNo = 0
 		m.dirty = false
@@ -329,6 +359,19 @@ func (m *monitor) run(line string) string {
 		return res
 	case "dump", "config":
 		return res
+	case "rewind":
+		// the ledger goes back to the block start; the key cache does not
+		sn := m.snap
+		m.ledger, m.acctSet, m.lastOp, m.quirk = sn.ledger, sn.acctSet, sn.lastOp, sn.quirk
+		m.takeSnap()
+		for k := range m.blockReg {
+			m.pkStale[k] = true
+		}
+		m.blockReg = map[string]bool{}
+		m.touched = map[string]bool{}
+		m.dirty = false
+		m.prev = w.observe()
+		return res
 	}
 	if strings.HasPrefix(res, "PANIC") {
 		m.report("panic", line+" => "+res)
@@ -350,6 +393,7 @@ func (m *monitor) run(line string) string {
 		if t[0] == "apply" {
 			m.everReg[t[2]] = true
 			m.accepted[t[2]] = true
+			m.blockReg[t[2]] = true
 			pkb, _ := hx.UnHex(t[6])
 			m.pkShadow[t[2]] = pkb
 		}
@@ -376,6 +420,11 @@ func (m *monitor) run(line string) string {
 		m.dirty = false
 		m.blockNo++
 		m.touched = map[string]bool{}
+		for k := range m.blockReg {
+			delete(m.pkStale, k) // the application is on the chain now: the cached key is the registry's
+		}
+		m.blockReg = map[string]bool{}
+		m.takeSnap()
 	}
 	if isVM {
 		// the opcodes change stakes outside the transaction ledger: take the observed stakes as the new
@@ -555,6 +604,9 @@ func (m *monitor) run(line string) string {
 		want, known := m.pkShadow[k]
 		if c, ok := o.cached[k]; !ok || !bytes.Equal(c, r.pubkey) || (known && !m.collided(k) && !bytes.Equal(c, want)) {
 			key := "pubkey-cache-disagrees"
+			if m.pkStale[k] {
+				key = "pkcache-keeps-discarded-block"
+			}
 			if m.collided(k) {
 				key = "id-hash-collision"
 			}
@@ -601,6 +653,9 @@ func witnesses() map[string][]string {
 			"vmunstake "+a1+" "+a2+" 1500000000000000000", "vmunstake "+a1+" "+a2+" 900000000000000000", "endblock 102"),
 		"reactivation-needs-more-than-minimum": append(pre("11"),
 			"apply "+a1+" 11 1 2000 - 01 01", "endblock 101", "refund "+a1+" 11 1", "endblock 102", "add "+a1+" 11 1", "endblock 103"),
+		"pkcache-keeps-discarded-block": append(pre("11"),
+			"apply "+a1+" 11 0 800 - 07 01", "endblock 101",
+			"refund "+a1+" 11 "+maxU64, "apply "+a1+" 11 0 800 - 09 01", "rewind", "endblock 102"),
 		"refund-lost-second-account": append(pre("11,22"),
 			"apply "+a1+" 11 0 800 - 01 01", "apply "+a2+" 22 0 800 - 01 01", "endblock 101",
 			"refund "+a1+" 11 100", "refund "+a2+" 22 100", "endblock 102"),
